@@ -773,8 +773,8 @@ func clip(s []string, n int) []string {
 		s = append(append([]string{}, s[:n]...), fmt.Sprintf("... (%d more lines)", len(s)-n))
 	}
 	for i, l := range s {
-		if len(l) > 600 {
-			s[i] = l[:600] + "…"
+		if len(l) > 3000 {
+			s[i] = l[:3000] + "…"
 		}
 	}
 	return s
